@@ -74,12 +74,110 @@ def replay_eviction(model):
                 clause="clean-up never hands an address more allowance than it would have had without it")
 
 
+def spec_consume(cap, rate, tokens, last, now, n):
+    """Native reading of the C10 token-bucket clauses (independent of the solver encoding)."""
+    level = min(cap, tokens + (now - last) * rate)
+    res = level >= n
+    return level, res, level - (n if res else 0)
+
+
+def close(a, b):
+    return abs(a - b) <= 1e-9 * max(1.0, abs(a), abs(b))
+
+
+def replay_consume(model):
+    cap = int(num(model.get("self.capacity"), 1))
+    rate = float(num(model.get("self.refill_rate"), 0))
+    tokens = float(num(model.get("self.tokens"), 0))
+    last = float(num(model.get("self.last_update"), 0))
+    nows = [float(num(v)) for k, v in sorted(model.items()) if k.startswith("now!")]
+    now = nows[0] if nows else last
+    n = int(num(model.get("n"), 1))
+    clock = Clock()
+    clock.t = last
+    mw.time.monotonic = clock
+    b = mw.TokenBucket(cap, rate)
+    b.tokens, b.last_update = tokens, last
+    clock.t = now
+    try:
+        got = b.consume(n)
+    except Exception as e:  # noqa: BLE001
+        return dict(confirmed=True, input=dict(capacity=cap, refill_rate=rate, tokens=tokens, last_update=last, now=now, n=n), observed="raised " + repr(e))
+    level, want, want_tokens = spec_consume(cap, rate, tokens, last, now, n)
+    problems = []
+    if got is not want:
+        problems.append(f"result {got} but level {level} vs n {n}")
+    if not close(b.tokens, want_tokens):
+        problems.append(f"tokens' {b.tokens} != {want_tokens}")
+    if not (-1e-9 <= b.tokens <= cap + 1e-9):
+        problems.append(f"tokens' {b.tokens} outside [0,{cap}]")
+    if b.last_update != now:
+        problems.append(f"last_update' {b.last_update} != now {now}")
+    if b.capacity != cap or b.refill_rate != rate:
+        problems.append("capacity/refill_rate changed")
+    return dict(confirmed=bool(problems), input=dict(capacity=cap, refill_rate=rate, tokens=tokens, last_update=last, now=now, n=n),
+                observed=dict(result=got, tokens=b.tokens, last_update=b.last_update, problems=problems),
+                clause="consume: level=min(cap,tokens+elapsed*rate); admitted iff level>=n; tokens'=level-n*admitted")
+
+
+def replay_process_request(model):
+    ip = model.get("client_ip", "192.0.2.1") or "192.0.2.1"
+    other = model.get("other_ip", "192.0.2.2") or "192.0.2.2"
+    if other == ip:
+        other = ip + "x"
+    cap = int(num(model.get("cfg.capacity"), 1))
+    rate = float(num(model.get("cfg.refill_rate"), 0))
+    retry = int(num(model.get("cfg.retry_after"), 30))
+    clock = Clock()
+    mw.time.monotonic = clock
+    rl = mw.RateLimiter(mw.RateLimitConfig(capacity=cap, refill_rate=rate, retry_after=retry))
+    ob = mw.TokenBucket(3, 0.5)
+    ob.tokens = 1.25
+    ob.last_update = clock.t - 7
+    rl.buckets[other] = ob
+    before_other = (ob.capacity, ob.refill_rate, ob.tokens, ob.last_update)
+    problems = []
+    outcomes = []
+    if model.get("wit_had") is True:
+        cb = mw.TokenBucket(int(num(model.get("wit_cap0"), cap)), float(num(model.get("wit_rate0"), rate)))
+        cb.tokens = float(num(model.get("wit_tokens0"), 0))
+        cb.last_update = float(num(model.get("wit_last0"), clock.t))
+        clock.t = max(float(num(model.get("wit_now"), cb.last_update)), cb.last_update)
+        rl.buckets[ip] = cb
+        ob.last_update = clock.t - 7
+        before_other = (ob.capacity, ob.refill_rate, ob.tokens, ob.last_update)
+    # drive the address through exhaustion so both the admit and the refuse path run
+    for i in range(cap + 2):
+        clock.t += 0.0
+        have = rl.buckets.get(ip)
+        level = min(have.capacity, have.tokens + (clock.t - have.last_update) * have.refill_rate) if have else cap
+        allow, resp = asyncio.run(rl.process_request("gemini://x/", ip, None))
+        outcomes.append((allow, resp))
+        if allow != (level >= 1):
+            problems.append(f"step {i}: allow={allow} but level={level}")
+        if allow and resp is not None:
+            problems.append(f"step {i}: admitted with response {resp!r}")
+        if not allow:
+            if not (isinstance(resp, str) and resp.startswith("44 ") and str(retry) in resp and resp.endswith("\r\n") and "\n" not in resp[:-2]):
+                problems.append(f"step {i}: refusal is not a 44 line with the retry hint: {resp!r}")
+        cur = rl.buckets.get(other)
+        if cur is not ob or (ob.capacity, ob.refill_rate, ob.tokens, ob.last_update) != before_other:
+            problems.append(f"step {i}: bucket of another address changed")
+    return dict(confirmed=bool(problems), input=dict(client_ip=ip, other_ip=other, capacity=cap, refill_rate=rate, retry_after=retry),
+                observed=dict(outcomes=outcomes, problems=problems),
+                clause="process_request touches only buckets[client_ip]; refusal is 44 + retry hint only when exhausted")
+
+
 def main():
     p = load()
     ob = p["obligation"]
     model = p.get("model") or {}
     if "eviction" in ob:
         done(**replay_eviction(model))
+    if "TokenBucket.consume/" in ob:
+        done(**replay_consume(model))
+    if "RateLimiter.process_request/" in ob:
+        done(**replay_process_request(model))
     done(confirmed=False, reason="no replay recipe for obligation " + ob)
 
 
